@@ -201,13 +201,21 @@ struct Scn<'a> {
     on_disk: BTreeSet<gix_hash::ObjectId>,
     rep: &'a mut Report,
     missing: Vec<gix_hash::ObjectId>,
+    /// the store uses the multi-pack index: oracle only (the scenario model has no multi-pack index)
+    midx: bool,
+    midx_tags: BTreeMap<String, usize>,
 }
 
 impl<'a> Scn<'a> {
     fn new(rep: &'a mut Report, dir: PathBuf, slots: usize) -> Scn<'a> {
+        Self::new_opts(rep, dir, slots, false)
+    }
+    fn new_opts(rep: &'a mut Report, dir: PathBuf, slots: usize, midx: bool) -> Scn<'a> {
         let repo = Repo::new(dir);
-        let store = open_store(&repo.objects(), slots as u16, false);
+        let store = open_store(&repo.objects(), slots as u16, midx);
         Scn {
+            midx,
+            midx_tags: BTreeMap::new(),
             repo,
             store,
             slots,
@@ -250,7 +258,18 @@ impl<'a> Scn<'a> {
             let nums: Vec<String> = objs.into_iter().map(|o| self.num(o).to_string()).collect();
             parts.push(format!("{f}:{}", nums.join(".")));
         }
-        let disk = format!("D{}", parts.join("+"));
+        let mut disk = format!("D{}", parts.join("+"));
+        if self.midx {
+            // the multi-pack index keeps its name: what makes it another one for the store is its mtime
+            let tag = std::fs::metadata(self.repo.pack_dir().join("multi-pack-index"))
+                .ok()
+                .map(|m| format!("{}:{:?}", m.len(), m.modified().ok()));
+            if let Some(tag) = tag {
+                let n = self.midx_tags.len();
+                let v = *self.midx_tags.entry(tag).or_insert(n);
+                disk.push_str(&format!("+m{v}"));
+            }
+        }
         if disk != self.last_disk {
             self.steps.push(disk.clone());
             self.last_disk = disk;
@@ -313,12 +332,13 @@ impl<'a> Scn<'a> {
         self.handles.iter().enumerate().filter(|(_, h)| h.is_some()).map(|(i, _)| i).collect()
     }
     fn op_line(&self) -> String {
-        format!("scn {} {}", self.slots, self.steps.join(" "))
+        format!("{} {} {}", if self.midx { "scnm" } else { "scn" }, self.slots, self.steps.join(" "))
     }
     fn oracle(&mut self, what: &str, h: usize, id: gix_hash::ObjectId, obs: &str) {
         self.rep.oracle_checked();
         let present = self.on_disk.contains(&id);
-        let enough_slots = self.last_disk.matches(':').count() <= self.slots;
+        // with a multi-pack index the scenarios are built to fit: the index and its rewritten copy
+        let enough_slots = self.midx || self.last_disk.matches(':').count() <= self.slots;
         let key = match obs {
             "panic" => Some("scripted: lookup panics"),
             "wrong" => Some("scripted: try_find returned another object's content"),
@@ -362,6 +382,10 @@ impl<'a> Scn<'a> {
         let line = self.op_line();
         let obs = if self.obs.is_empty() { "-".to_string() } else { self.obs.join(",") };
         self.rep.bucket(class);
+        if self.midx {
+            // oracle only
+            return;
+        }
         self.rep.case(&line, &obs, true);
     }
 }
@@ -577,6 +601,61 @@ fn corpus(rep: &mut Report, sc: &Scratch) {
         }
         s.metrics();
         s.finish("corpus");
+    }
+    // (g) multi-pack index (oracle only). Handles 0 and 2 find an object through the multi-pack index without
+    // loading its pack. Then ONLY the multi-pack index is rewritten (`git multi-pack-index write` after a new
+    // pack; no index file the store knows disappears): the store moves it to another slot and clears the old
+    // one, which needs a new generation. Handle 0 comes back while the old slot is empty, handle 2 after
+    // `git repack -ad --write-midx` put the next multi-pack index (one pack, other pack numbering) into it.
+    for slots in 2..=4usize {
+        for variant in 0..2 {
+            let mut s = Scn::new_opts(rep, sc.join(format!("corpus-g{slots}-{variant}")), slots, true);
+            let c1 = s.repo.commit(0);
+            git_ok(&s.repo.dir, &["repack", "-adq"], None);
+            let c2 = s.repo.commit(0);
+            git_ok(&s.repo.dir, &["repack", "-dq"], None);
+            git_ok(&s.repo.dir, &["multi-pack-index", "write"], None);
+            s.sync_disk();
+            for _ in 0..3 {
+                s.new_handle();
+            }
+            s.contains(0, c1);
+            s.contains(0, c2);
+            s.contains(2, c2);
+            s.contains(2, c1);
+            s.metrics();
+            let c3 = s.repo.commit(0);
+            if variant == 0 {
+                git_ok(&s.repo.dir, &["repack", "-dq"], None);
+            }
+            // make sure the rewritten file has another mtime
+            std::thread::sleep(std::time::Duration::from_millis(20));
+            git_ok(&s.repo.dir, &["multi-pack-index", "write"], None);
+            s.rep.bucket("git-midx-rewrite-only");
+            s.sync_disk();
+            s.contains(1, absent);
+            s.metrics();
+            s.find(0, c1);
+            s.find(0, c2);
+            s.metrics();
+            std::thread::sleep(std::time::Duration::from_millis(20));
+            git_ok(&s.repo.dir, &["repack", "-adq", "--write-midx"], None);
+            s.rep.bucket("git-repack-ad-write-midx");
+            s.sync_disk();
+            s.contains(1, absent);
+            s.metrics();
+            s.find(2, c2);
+            s.find(2, c1);
+            s.find(1, c3);
+            s.metrics();
+            for o in s.repo.all_objects() {
+                s.find(0, o);
+                s.find(1, o);
+                s.find(2, o);
+            }
+            s.metrics();
+            s.finish("corpus-midx");
+        }
     }
 }
 
